@@ -17,6 +17,7 @@ PRELUDE = """
     pub struct OpL<'a>(&'a u8);
     pub struct SB<'a> { pub r: &'a Op }
     pub struct S2<'a, 'b> { pub x: &'a Op, pub y: &'b Op }
+    #[diplomat::attr(kotlin, error)]
     pub struct S2b<'a, 'b: 'a> { pub x: &'a Op, pub y: &'b Op }
     pub struct NestB<'a> { pub inner: SB<'a>, pub n: u8 }
     pub struct SSl<'a> { pub s: DiplomatSlice<'a, u8>, pub r: &'a Op }
@@ -92,6 +93,10 @@ RET_FORMS = [
     Form("&'r str", 1, lambda l: "&%s str" % _lt(l[0]), lambda l: [("slice", None, l[0])]),
     Form("OutB<'r,'s>", 2, lambda l: "OutB<%s, %s>" % (_lt(l[0]), _lt(l[1])),
          lambda l: [("struct", "a", l[0]), ("struct", "b", l[1])]),
+    Form("Result<u8, S2b<'r,'s>>", 2, lambda l: "Result<u8, S2b<%s, %s>>" % (_lt(l[0]), _lt(l[1])),
+         lambda l: [("struct", "a", l[0]), ("struct", "b", l[1])], lambda l: [(l[1], l[0])]),
+    Form("Result<S2b<'r,'s>, u8>", 2, lambda l: "Result<S2b<%s, %s>, u8>" % (_lt(l[0]), _lt(l[1])),
+         lambda l: [("struct", "a", l[0]), ("struct", "b", l[1])], lambda l: [(l[1], l[0])]),
     Form("Result<&'r Op, ()>", 1, lambda l: "Result<&%s Op, ()>" % _lt(l[0]), lambda l: [("opaque", None, l[0])]),
 ]
 
@@ -190,7 +195,7 @@ class Sig:
         """bounds that come from the *definition* of a used type (S2b<'a, 'b: 'a>), instantiated at each use"""
         b = set()
         for f, l in list(self.params) + [(self.ret, self.ret_l)]:
-            if f.name.startswith("S2b<"):
+            if "S2b<" in f.name:
                 b.add((l[1], l[0]))
         return {(x, y) for (x, y) in b if x != y}
 
@@ -200,7 +205,7 @@ class Sig:
         if self.selff == "&'x self on OpL<'y>":
             b.add((self.self_l[1], self.self_l[0]))
         for f, l in list(self.params) + [(self.ret, self.ret_l)]:
-            if not f.name.startswith("S2b<"):
+            if "S2b<" not in f.name:
                 b.update(f.implied(l))
         return {(x, y) for (x, y) in b if x != y}
 
